@@ -1,4 +1,5 @@
 import WfProofs.PolicyLemmas
+import WfProofs.PolicyBudget
 import WfProofs.EngineReduce
 import WfProofs.EngineWaitUnrepaired
 /-!
@@ -215,3 +216,152 @@ example : C05.executions { retry := none, wait := waitFixed 0, stop := stopAfter
     (fun _ => 0) 7 (fun _ => 0) 10 1 = 3 := by
   have := C05_attempt_budget none (waitFixed 0) 3 (fun _ => 0) 7 (fun _ => 0) (by simp) 10 (by omega)
   simpa using this
+
+/-! ## composed policies of any nesting depth, every clock
+
+`stop_any` / `stop_all` / `|` / `&` nest (`Policy.STree`); the retry loop of an always-failing invocation
+is `C05.executions`.  For EVERY composed policy the number of executions is the least failure number at
+which `next` refuses; for trees the attempt limits bound it from above on every clock (`STree.cap`:
+`stop_any` = least operand, `stop_all` = greatest) and the tree's `STree.lo` from below, with equality
+whenever the two agree (e.g. every tree over attempt limits and `stop_never`). -/
+
+theorem C05.executions_eq_runs (p : Composed) (el : Nat → Rat) (e : Nat) (u : Nat → Rat) :
+    ∀ (fuel k : Nat), C05.executions p el e u fuel k = Policy.runs p el e u fuel k
+  | 0, k => rfl
+  | fuel + 1, k => by
+    simp only [C05.executions, Policy.runs]
+    cases p.next (el k) k e (u k) with
+    | none => rfl
+    | some _ => exact C05.executions_eq_runs p el e u fuel (k + 1)
+
+/-- **every composed policy**: an always-failing invocation is executed `r` times where `r` is the LEAST
+failure number at which `next` answers `None`: every earlier failure was granted a retry, and (unless the
+observation window `fuel` ended first) the `r`-th one was refused -/
+theorem C05_executions_least (p : Composed) (el : Nat → Rat) (e : Nat) (u : Nat → Rat) (fuel : Nat) :
+    1 ≤ C05.executions p el e u fuel 1 ∧ C05.executions p el e u fuel 1 ≤ fuel + 1 ∧
+    (∀ j, 1 ≤ j → j < C05.executions p el e u fuel 1 → (p.next (el j) j e (u j)).isSome = true) ∧
+    (C05.executions p el e u fuel 1 ≤ fuel →
+      p.next (el (C05.executions p el e u fuel 1)) (C05.executions p el e u fuel 1) e (u (C05.executions p el e u fuel 1)) = none) := by
+  rw [C05.executions_eq_runs]
+  have hb := Policy.runs_bounds p el e u fuel 1
+  refine ⟨hb.1, by omega, fun j h1 h2 => Policy.runs_retried p el e u fuel 1 j h1 h2, fun h => ?_⟩
+  exact Policy.runs_stopped p el e u fuel 1 (by omega)
+
+/-- **attempt limits cap the executions on every clock**: whatever else the stop tree contains (delay limits,
+`stop_never`, any nesting) and whatever the error, wait strategy and elapsed times: at most `max(cap,1)` executions -/
+theorem C05_attempt_cap_tree (retry : Option Cond) (w : Wait) (t : STree) (n : Nat) (hcap : t.cap = some n)
+    (el : Nat → Rat) (e : Nat) (u : Nat → Rat) (fuel : Nat) :
+    C05.executions { retry := retry, wait := w, stop := t.eval } el e u fuel 1 ≤ max n 1 := by
+  rw [C05.executions_eq_runs]
+  apply Policy.runs_le_of_stop _ el e u (max n 1) _ fuel 1 (by omega)
+  apply Policy.next_none_of_stop
+  exact STree.cap_sound _ _ _ t ⟨n, hcap, by omega⟩
+
+/-- **no tree stops a retryable failure before its lower bound**: at least `max(lo,1)` executions (as far as the
+window reaches); a tree without finite lower bound (`stop_never` on every `any`-path) never gives up -/
+theorem C05_attempt_floor_tree (retry : Option Cond) (w : Wait) (t : STree) (el : Nat → Rat) (e : Nat) (u : Nat → Rat)
+    (hr : ∀ r, retry = some r → r e = true) (fuel : Nat) :
+    (∀ m, t.lo = some m → min (max m 1) (fuel + 1) ≤ C05.executions { retry := retry, wait := w, stop := t.eval } el e u fuel 1) ∧
+    (t.lo = none → C05.executions { retry := retry, wait := w, stop := t.eval } el e u fuel 1 = fuel + 1) := by
+  rw [C05.executions_eq_runs]
+  have hnext : ∀ j, (∀ m, t.lo = some m → j < m) →
+      (({ retry := retry, wait := w, stop := t.eval } : Composed).next (el j) j e (u j)).isSome = true := by
+    intro j hj
+    rw [Policy.next_retryable _ _ _ _ _ hr]
+    by_cases hs : t.eval j (el j) (w j (u j)) = true
+    · obtain ⟨m, hm, hmj⟩ := STree.lo_sound _ _ _ t hs
+      have := hj m hm; omega
+    · simp [hs]
+  constructor
+  · intro m hm
+    apply Policy.runs_ge_of_retry _ el e u _ fuel 1 _ (by omega) (by omega)
+    intro j h1 h2
+    apply hnext j
+    intro m' hm'; rw [hm] at hm'; injection hm' with hm'; omega
+  · intro hnone
+    have hb := Policy.runs_bounds ({ retry := retry, wait := w, stop := t.eval } : Composed) el e u fuel 1
+    have := Policy.runs_ge_of_retry ({ retry := retry, wait := w, stop := t.eval } : Composed) el e u (fuel + 1) fuel 1
+      (fun j _ _ => hnext j (fun m hm => by rw [hnone] at hm; cases hm)) (by omega) (by omega)
+    omega
+
+/-- **exact budget of a nested stop tree**: when the two bounds agree (`n`) a retryable, always-failing invocation
+is executed exactly `max(n,1)` times on every clock, with any wait strategy -/
+theorem C05_attempt_budget_tree (retry : Option Cond) (w : Wait) (t : STree) (n : Nat) (hcap : t.cap = some n)
+    (hlo : t.lo = some n) (el : Nat → Rat) (e : Nat) (u : Nat → Rat) (hr : ∀ r, retry = some r → r e = true)
+    (fuel : Nat) (hf : n ≤ fuel) :
+    C05.executions { retry := retry, wait := w, stop := t.eval } el e u fuel 1 = max n 1 := by
+  have h1 := C05_attempt_cap_tree retry w t n hcap el e u fuel
+  have h2 := (C05_attempt_floor_tree retry w t el e u hr fuel).1 n hlo
+  omega
+
+/-- **the retry loop under any stop tree, on the clock it is handed**: failures `1 … r-1` found the tree false at
+the elapsed time and upcoming sleep of that moment, failure `r` found it true -/
+theorem C05_stop_tree_run (retry : Option Cond) (w : Wait) (t : STree) (el : Nat → Rat) (e : Nat) (u : Nat → Rat)
+    (hr : ∀ r, retry = some r → r e = true) (fuel : Nat) :
+    (∀ j, 1 ≤ j → j < C05.executions { retry := retry, wait := w, stop := t.eval } el e u fuel 1 →
+        t.eval j (el j) (w j (u j)) = false) ∧
+    (C05.executions { retry := retry, wait := w, stop := t.eval } el e u fuel 1 ≤ fuel →
+        t.eval (C05.executions { retry := retry, wait := w, stop := t.eval } el e u fuel 1)
+          (el (C05.executions { retry := retry, wait := w, stop := t.eval } el e u fuel 1))
+          (w (C05.executions { retry := retry, wait := w, stop := t.eval } el e u fuel 1)
+             (u (C05.executions { retry := retry, wait := w, stop := t.eval } el e u fuel 1))) = true) := by
+  obtain ⟨_, _, h3, h4⟩ := C05_executions_least { retry := retry, wait := w, stop := t.eval } el e u fuel
+  constructor
+  · intro j h1 h2
+    have := h3 j h1 h2
+    rw [Policy.next_retryable _ _ _ _ _ hr] at this
+    by_cases hs : t.eval j (el j) (w j (u j)) = true
+    · simp [hs] at this
+    · simpa using hs
+  · intro hle
+    have := h4 hle
+    rw [Policy.next_retryable _ _ _ _ _ hr] at this
+    generalize C05.executions { retry := retry, wait := w, stop := t.eval } el e u fuel 1 = r at this ⊢
+    by_cases hs : t.eval r (el r) (w r (u r)) = true
+    · exact hs
+    · simp [hs] at this
+
+/-- **`stop_after_delay(d)` over a whole run**: the invocation keeps being retried while the elapsed time handed to
+the policy is `< d` and stops at the first failure whose elapsed time is `≥ d` -/
+theorem C05_delay_budget_run (retry : Option Cond) (w : Wait) (d : Rat) (el : Nat → Rat) (e : Nat) (u : Nat → Rat)
+    (hr : ∀ r, retry = some r → r e = true) (fuel : Nat) :
+    (∀ j, 1 ≤ j → j < C05.executions { retry := retry, wait := w, stop := stopAfterDelay d } el e u fuel 1 → el j < d) ∧
+    (C05.executions { retry := retry, wait := w, stop := stopAfterDelay d } el e u fuel 1 ≤ fuel →
+        d ≤ el (C05.executions { retry := retry, wait := w, stop := stopAfterDelay d } el e u fuel 1)) := by
+  have h := C05_stop_tree_run retry w (.leaf (.afterDelay d)) el e u hr fuel
+  simp only [STree.eval, SLeaf.eval] at h
+  constructor
+  · intro j h1 h2
+    have := h.1 j h1 h2
+    simp only [stopAfterDelay, decide_eq_false_iff_not, ge_iff_le] at this
+    exact Rat.not_le.mp this
+  · intro hle
+    have := h.2 hle
+    simpa [stopAfterDelay] using this
+
+/-- **a budget once exhausted stays exhausted**: a tree of attempt and delay limits (any nesting, no
+`stop_before_delay`) that holds at `(k, elapsed)` holds at every later failure count and elapsed time, whatever
+the upcoming sleeps -/
+theorem C05_budget_monotone (t : STree) (ht : t.noBefore = true) (k k' : Nat) (el el' up up' : Rat) (hk : k ≤ k')
+    (he : el ≤ el') (h : t.eval k el up = true) : t.eval k' el' up' = true :=
+  STree.mono k k' el el' up up' hk he t ht h
+
+/-- `stop_after_attempt(q)` for ANY number `q` (the constructor does not insist on an int): `⌈q⌉` failures -/
+theorem C05_attempt_threshold (q : Rat) (k : Nat) (el up : Rat) : stopAfterAttempt q k el up = decide (Policy.thr q ≤ k) :=
+  Policy.stopAfterAttempt_eq q k el up
+
+/-! Non-vacuity (nested trees) -/
+/-- `stop_any(stop_all(stop_after_attempt(5), stop_after_attempt(3)), stop_after_attempt(7), stop_never())` -/
+def C05.tree1 : STree := .any [.all [.leaf (.afterAttempt 5), .leaf (.afterAttempt 3)], .leaf (.afterAttempt 7), .leaf .never]
+/-- `(stop_after_attempt(4) | stop_after_delay(10)) & stop_after_attempt(2)` -/
+def C05.tree2 : STree := .all [.any [.leaf (.afterAttempt 4), .leaf (.afterDelay 10)], .leaf (.afterAttempt 2)]
+example : C05.tree1.cap = some 5 ∧ C05.tree1.lo = some 5 := by decide
+example : C05.tree2.cap = some 4 ∧ C05.tree2.lo = some 2 ∧ C05.tree2.noBefore = true := by decide
+example : C05.executions { retry := none, wait := waitFixed 1, stop := C05.tree1.eval } (fun k => k) 7 (fun _ => 0) 20 1 = 5 := by
+  have := C05_attempt_budget_tree none (waitFixed 1) C05.tree1 5 (by decide) (by decide) (fun k => k) 7 (fun _ => 0) (by simp) 20 (by omega)
+  simpa using this
+-- a delay limit inside: between the bounds, decided by the clock (here 1 s per failure … 12 s per failure)
+example : C05.executions { retry := none, wait := waitFixed 1, stop := C05.tree2.eval } (fun k => k) 7 (fun _ => 0) 20 1 = 4 := by decide
+example : C05.executions { retry := none, wait := waitFixed 1, stop := C05.tree2.eval } (fun k => 12 * k) 7 (fun _ => 0) 20 1 = 2 := by decide +kernel
+example : Policy.thr (5 / 2) = 3 := by decide +kernel
+example : C05.executions { retry := none, wait := waitFixed 1, stop := stopAfterDelay 5 } (fun k => 2 * k) 7 (fun _ => 0) 20 1 = 3 := by decide +kernel
